@@ -247,6 +247,7 @@ def run(ctx, impl_only=False):
     rich_cases(ctx)
     core.witnesses(ctx, ID, {'F44': f44_witness})
     tmpdir = tempfile.mkdtemp(prefix='verif_c14_')
+    journal = io.BytesIO()
     enc_lines, enc_meta, vm_lines, vm_meta = [], [], [], []
     try:
         for pi, (t1, t2) in enumerate(pairs):
@@ -285,6 +286,21 @@ def run(ctx, impl_only=False):
                     with open(p, 'wb') as fh:
                         d.dump(fh)
                     reloaded['path'] = Delta(delta_path=p, bidirectional=bidir, always_include_values=aiv)
+                    # several deltas dumped one after the other into one file object: each is reloaded from the position where it was written
+                    if len(journal.getvalue()) > 200000:
+                        journal.seek(0); journal.truncate()
+                    journal.seek(0, 2)
+                    off = journal.tell()
+                    d.dump(journal)
+                    f2 = io.BytesIO(journal.getvalue()); f2.seek(off)
+                    reloaded['file_at_offset'] = Delta(delta_file=f2, bidirectional=bidir, always_include_values=aiv)
+                    jp = os.path.join(tmpdir, 'journal.pkl')
+                    with open(jp, 'ab') as fh:
+                        doff = fh.tell()
+                        d.dump(fh)
+                    with open(jp, 'rb') as fh:
+                        fh.seek(doff)
+                        reloaded['disk_file_at_offset'] = Delta(delta_file=fh, bidirectional=bidir, always_include_values=aiv)
                 except Exception as e:
                     known = False
                     for fid, fd in findings.items():
@@ -302,7 +318,9 @@ def run(ctx, impl_only=False):
                     ref_out += [outcome(lambda b_=b_: copy.deepcopy(b_) - mk()) for b_ in bases]
                 loaders = {'bytes': lambda: Delta(b, bidirectional=bidir, always_include_values=aiv),
                            'file': lambda: Delta(delta_file=io.BytesIO(b), bidirectional=bidir, always_include_values=aiv),
-                           'path': lambda: Delta(delta_path=p, bidirectional=bidir, always_include_values=aiv)}
+                           'path': lambda: Delta(delta_path=p, bidirectional=bidir, always_include_values=aiv),
+                           'file_at_offset': lambda: Delta(delta_file=io.BytesIO(b), bidirectional=bidir, always_include_values=aiv),
+                           'disk_file_at_offset': lambda: Delta(delta_file=io.BytesIO(b), bidirectional=bidir, always_include_values=aiv)}
                 for ch, dx in reloaded.items():
                     try:
                         sx = pkl.symb(dx.diff)
